@@ -64,9 +64,9 @@ Proof.
   intros (Hr & Hc & serial & cost & p & Hi & Hp) Hs. destruct l as [n| |j| |j]; unfold step in Hs; rewrite ?Hr in Hs; try discriminate.
   pose proof (tstep_frame _ _ _ _ Hs) as (Hr' & _ & _ & _ & Hoth).
   assert (Hc' : closed CRet s' = true).
-  { unfold closed in *. destruct (tstep_senders _ _ _ _ Hs) as [E|[r E]]; rewrite E; [assumption | cbn; assumption]. }
+  { unfold closed, has_key in *. destruct (tstep_senders _ _ _ _ Hs) as [E|[r E]]; rewrite E; [assumption | cbn [existsb chan_of chan_eqb orb]; assumption]. }
   split; [congruence|]. split; [assumption|].
-  destruct (Nat.eq_dec j i) as [->|Hne]; [|exists serial, cost, p; split; [rewrite Hoth by assumption; assumption | assumption]].
+  destruct (Nat.eq_dec j i) as [->|Hne]; [|exists serial, cost, p; split; [rewrite Hoth by lia; assumption | assumption]].
   assert (Hlt : i < length (s_tasks s)) by (eapply nth_error_lt; eassumption).
   unfold tstep in Hs. rewrite Hi in Hs. destruct p as [|x|x|o]; cbn [cstep] in Hs.
   - inversion Hs; subst. exists serial, cost, (CSend (new_rx c CRet s)). cbn. now rewrite nth_error_set_nth_eq.
@@ -118,7 +118,10 @@ Proof.
 Qed.
 
 Lemma np_push ch it t : np_task (push_task ch it t) = np_task t.
-Proof. destruct t as [? ? ? p|? ? ? p|? p]; try reflexivity; destruct p as [| |q| | | |]; try reflexivity; destruct q; reflexivity. Qed.
+Proof.
+  destruct t as [? ? ? p|? ? ? p|? p]; [destruct p; reflexivity | | reflexivity].
+  destruct p as [| |q| | | |]; try reflexivity. destruct q; reflexivity.
+Qed.
 
 Lemma np_step c l s s' : forallb np_task (s_tasks s) = true -> step c l s = Some s' -> forallb np_task (s_tasks s') = true.
 Proof.
@@ -206,7 +209,7 @@ Definition demo_trace : list label :=
    LRecv 16; LRecv 24; LBcast 3; LBcast 0; LBcast 0; LBcast 0; LBcastEnd;
    LRecv 24; LBcast 1; LBcast 0; LTask 3; LBcast 0; LBcast 0; LBcastEnd;
    LRecv 6; LFault; LBcast 0; LBcast 0; LBcast 0; LBcast 0; LBcastEnd;
-   LTask 0; LTask 1; LTask 2; LTask 2; LTask 2; LTask 2; LTask 3; LTask 3].
+   LTask 0; LTask 1; LTask 1; LTask 2; LTask 2; LTask 2; LTask 2; LTask 3; LTask 3].
 
 Example demo_session : exists s,
   run demo_cfg demo_trace (init demo_tasks) = Some s /\ wf demo_cfg /\ forallb fresh_task demo_tasks = true /\
